@@ -236,34 +236,38 @@ def outcome_body(spec, wd):
         c = inputs.pack_c(built.form.constants(), data)
         x = inputs.pack_coordinates(data.x, width)
         nent = formcheck.entity_count(spec["cell"], itype)
-        ent = None if itype == "cell" else [1 % nent, (nent - 1)][:width]
-        perm = [0, 0] if itype == "interior_facet" else None
         asize = int(np.prod(base["tensor_shape"])) if base["tensor_shape"] else 1
         if asize > 900:
             return Outcome("too-large", case_id=h, classes=classes)
-        results = {}
-        for mode in MODES:
-            tree = lntree.unbuild(asts[mode][k]["node"])
-            if mode != "none" and tree != results["none"][1]:
-                changed = True
-            try:
-                A, _m = astgen.execute_kernel(tree, asize, w, c, x, entity=ent, perm=perm)
-            except (lntree.OutOfBounds, lntree.Undefined) as e:
-                kind = "use-before-definition" if isinstance(e, lntree.Undefined) else "out-of-bounds"
-                if mode == "none":
-                    # not attributable to a pass; C08 judges bounds of the unoptimised body
-                    return Outcome("unoptimised-body-fault", case_id=h, classes=classes + [kind])
-                return Outcome("violation", case_id=h, classes=classes, key=f"{PROP}:{h}", bucket=f"{PROP}:body:{kind}:{mode}",
-                               what=f"optimiser mode {mode!r} of kernel {k} ({itype}): {kind}: {e}", replay=dict(replay, mode=mode))
-            results[mode] = (A, tree)
-        A0 = results["none"][0]
-        scale = float(np.max(np.abs(A0))) + 1e-30
-        for mode in MODES[1:]:
-            d = float(np.max(np.abs(results[mode][0] - A0)))
-            if not d <= 1e-9 * scale:
-                return Outcome("violation", case_id=h, classes=classes, key=f"{PROP}:{h}", bucket=f"{PROP}:body:value:{mode}",
-                               what=f"optimiser mode {mode!r} changes kernel {k} ({itype}) of the form: max|A_opt - A_noopt| = {d:.3e} at scale {scale:.3e}",
-                               replay=dict(replay, mode=mode))
+        # entity / permutation arguments: interior-facet bodies are executed for two configurations (different local facets
+        # on the two sides in both orders, a non-zero permutation code on one side)
+        configs = [(None if itype == "cell" else [1 % nent, (nent - 1)][:width], [0, 0] if itype == "interior_facet" else None)]
+        if itype == "interior_facet" and nent > 1:
+            configs.append(([nent - 1, 0], [1, 0] if specs.TDIM[spec["cell"]] >= 2 else [0, 0]))
+        for ent, perm in configs:
+            results = {}
+            for mode in MODES:
+                tree = lntree.unbuild(asts[mode][k]["node"])
+                if mode != "none" and tree != results["none"][1]:
+                    changed = True
+                try:
+                    A, _m = astgen.execute_kernel(tree, asize, w, c, x, entity=ent, perm=perm)
+                except (lntree.OutOfBounds, lntree.Undefined) as e:
+                    kind = "use-before-definition" if isinstance(e, lntree.Undefined) else "out-of-bounds"
+                    if mode == "none":
+                        # not attributable to a pass; C08 judges bounds of the unoptimised body
+                        return Outcome("unoptimised-body-fault", case_id=h, classes=classes + [kind])
+                    return Outcome("violation", case_id=h, classes=classes, key=f"{PROP}:{h}", bucket=f"{PROP}:body:{kind}:{mode}",
+                                   what=f"optimiser mode {mode!r} of kernel {k} ({itype}): {kind}: {e}", replay=dict(replay, mode=mode))
+                results[mode] = (A, tree)
+            A0 = results["none"][0]
+            scale = float(np.max(np.abs(A0))) + 1e-30
+            for mode in MODES[1:]:
+                d = float(np.max(np.abs(results[mode][0] - A0)))
+                if not d <= 1e-9 * scale:
+                    return Outcome("violation", case_id=h, classes=classes, key=f"{PROP}:{h}", bucket=f"{PROP}:body:value:{mode}",
+                                   what=f"optimiser mode {mode!r} changes kernel {k} ({itype}) of the form: max|A_opt - A_noopt| = {d:.3e} at scale {scale:.3e}",
+                                   replay=dict(replay, mode=mode))
     # compiled: optimised vs unoptimised
     try:
         fr_opt = formcheck.FormRunner(spec, wd, name="o" + h, built=built).compile()
@@ -323,7 +327,7 @@ def shard(shard, nshards, n_over, n_body, seed):
 
     drive(mi_strategy, ev_mi, 40, (PROP, seed, shard, "mi"), res, shrink_calls=50)
     with scratch(f"vf-c17-{shard}-") as wd:
-        drive(strategies.form_specs(BODY_PROFILE), lambda s: outcome_body(s, wd), n_body, (PROP, seed, shard, "body"), res, shrink_calls=25)
+        drive(strategies.forms(BODY_PROFILE, grammar=2, templates=1), lambda s: outcome_body(s, wd), n_body, (PROP, seed, shard, "body"), res, shrink_calls=25)
     return res
 
 
